@@ -1,6 +1,9 @@
 import DriverLib.Basic
 import QV.Model.Hilbert
 import QV.Model.DataLoad
+import QV.Model.HilbertInt
+import QV.Model.States
+import QV.Model.Density
 open Lean Drv QV QV.DataLoad
 
 namespace Drv.C19
@@ -116,6 +119,57 @@ def extractOp (j : Json) : R Json := do
   | .error e => return errOut e
   | .ok a => return Json.mkObj [("result", arrOut id a)]
 
+-- ---------------------------------------------------------------- arrays produced from the generated space
+def pairsOut (xs : List (Float × Float)) : Json :=
+  Json.mkObj [("re", fListOut (xs.map (·.1))), ("im", fListOut (xs.map (·.2)))]
+
+/-- op `c19.arrays`: the arrays the library produces from `generate_hilbert_space()` — `psi(space)`,
+`probability(space)`, `rho(space, space)` — computed by evaluating the state models on the rows of the MODEL's
+generated space (`overSpace`, `overSpace2`; theorem `C19_position_k`).
+in: kind ("pos"|"cplx"|"dm"), n, h, a?, am, ph?.  out: {"error"} | {"psi": {re, im}?, "prob": [..], "rho": [[{re,im}]]?} -/
+def arrays (j : Json) : R Json := do
+  let kind ← jStr (← fld j "kind")
+  let n ← jNat (← fld j "n")
+  let h ← jNat (← fld j "h")
+  match generateHilbertSpace none n with
+  | .error e => return errOut e
+  | .ok rows =>
+    if kind == "dm" then
+      let a ← jNat (← fld j "a")
+      let am ← parsePRBM (← fld j "am") n h a
+      let ph ← parsePRBM (← fld j "ph") n h a
+      let rho := overSpace2 n (Density.rho am ph) rows
+      let prob := overSpace n (fun v => Density.probability am v 1.0) rows
+      return Json.mkObj [("prob", fListOut prob), ("rho", .arr (rho.toArray.map pairsOut))]
+    else
+      let am ← parseRBM (← fld j "am") n h
+      let prob := overSpace n (fun v => Wave.probability am v 1.0) rows
+      if kind == "cplx" then
+        let ph ← parseRBM (← fld j "ph") n h
+        return Json.mkObj [("prob", fListOut prob), ("psi", pairsOut (overSpace n (Wave.psiCplx am ph) rows))]
+      else
+        return Json.mkObj [("prob", fListOut prob), ("psi", pairsOut (overSpace n (Wave.psiPos am) rows))]
+
+def jOptInt (j : Json) (k : String) : R (Option Int) :=
+  match fldOpt j k with
+  | none => .ok none
+  | some v => (jInt v).map some
+
+/-- op `c19.intargs`: `subspace_vector(num, size)` and the guard of `generate_hilbert_space(size)` for arbitrary
+Python ints (`QV.Model.HilbertInt`).  in: num (int), size (int | null), nv.
+out: {"sub": "OverflowError" | [0/1…], "guard": error kind | size} -/
+def intargs (j : Json) : R Json := do
+  let num ← jInt (← fld j "num")
+  let size ← jOptInt j "size"
+  let nv ← jNat (← fld j "nv")
+  let sub : Json := match subspaceVectorZ num size nv with
+    | .overflowError => .str "OverflowError"
+    | .ok v => rowOut v
+  let guard : Json := match spaceGuardZ size nv with
+    | .error e => .str e.toString
+    | .ok s => nOut s
+  return Json.mkObj [("sub", sub), ("guard", guard)]
+
 def handle (op : String) (j : Json) : Option (R Json) :=
   match op with
   | "c19.space" => some (space j)
@@ -125,6 +179,8 @@ def handle (op : String) (j : Json) : Option (R Json) :=
   | "c19.load_data_dm" => some (loadDataDMOp j)
   | "c19.tokenize" => some (tokenizeOp j)
   | "c19.extract" => some (extractOp j)
+  | "c19.arrays" => some (arrays j)
+  | "c19.intargs" => some (intargs j)
   | _ => none
 
 end Drv.C19
